@@ -17,11 +17,12 @@ DirNames == <<<<47, 122, 49>>, <<47, 122, 50>>, <<122, 51>>>>                  \
 \* a valid little version-1 file (one type UTC+1h "CET") and a malformed one
 ValidFile == Encode(0, <<>>, <<>>, [tr |-> <<>>, ty |-> <<[off |-> 3600, dst |-> 0]>>, lp |-> <<>>],
                     [tab |-> <<67, 69, 84, 0>>, idx |-> <<0>>, isstd |-> <<>>, isut |-> <<>>, footer |-> <<>>])
-BadFile == <<84, 90, 105, 102, 57>>
+BadFile == <<71, 65, 82, 66, 65, 71, 69>>        \* readable, but not TZif at all (no magic)
 Values == { <<>>, LocaltimeName, <<58, 65>>, <<65>>, <<47, 120, 47, 65>>, <<58, 47, 120, 47, 65>>, <<32, 65, 32>>,
             <<85, 84, 67, 48>>, <<32, 85, 84, 67, 48, 32>>, <<58, 85, 84, 67, 48>>, <<58>>, <<58, 58, 65>>,
             <<69, 83, 84, 53, 69, 68, 84, 44, 77, 51, 46, 50, 46, 48, 44, 77, 49, 49, 46, 49, 46, 48>>, <<66, 97, 100>>,
-            <<108, 111, 99, 97, 108, 116, 105, 109, 101, 32>>, <<65, 47, 66>> }
+            <<108, 111, 99, 97, 108, 116, 105, 109, 101, 32>>, <<65, 47, 66>>,
+            <<58>> \o LocaltimeName }        \* ":localtime" is a relative file name, not /etc/localtime
 DirLists == {<<>>} \cup {<<DirNames[i]>> : i \in 1..3} \cup {<<DirNames[i], DirNames[j]>> : i \in 1..3, j \in 1..3}
             \cup (IF MaxDirs >= 3 THEN {<<DirNames[1], DirNames[2], DirNames[3]>>, <<DirNames[3], DirNames[1], DirNames[2]>>, <<DirNames[2], DirNames[2], DirNames[1]>>} ELSE {})
 \* every path the value could possibly make the library open under any reading (trimmed or not, with or without the colon)
